@@ -6,6 +6,7 @@
  * Linked against a library built with threadpool_serial.c (NO_THREAD_IMPL) the same program is the serial reference.
  *
  *   bp <workers> <max_backlog> <policy> <sched-seed> <B> <bc 0|1> <hbits> <toy|none> <pre-hex> <chunk> <nfiles> (<flags-dec> <data-hex>)*
+ *   bps …the same…   and sqfs_block_processor_sync() is called before every end_file (while the file is still open)
  *
  * The whole client (create, begin/append/end per file, finish, destroy) runs as modelled thread 0; the workers are
  * created by thread_pool_create.  Output, one line (same canonical text as `sqfsmodel c02 run`, then ` # ` and the
@@ -318,7 +319,7 @@ typedef struct { unsigned flags; unsigned char *data; size_t size; } wfile_t;
 static wfile_t wf[MAXFILES];
 static int nfiles, g_workers;
 static size_t g_backlog, g_blocksize, g_chunk;
-static int g_bc;
+static int g_bc, g_sync;
 static unsigned char *g_pre;
 static size_t g_prelen;
 static int g_rc;
@@ -394,6 +395,7 @@ static void *client(void *arg)
 			ret = sqfs_block_processor_append(proc, wf[i].data + off, c);
 			off += c;
 		}
+		if (ret == 0 && g_sync) ret = sqfs_block_processor_sync(proc);
 		if (ret == 0) ret = sqfs_block_processor_end_file(proc);
 	}
 	if (ret == 0) ret = sqfs_block_processor_finish(proc);
@@ -504,7 +506,8 @@ static void run_line(void)
 		tok[i] = strtok_r(i == 0 ? line : NULL, " \n", &save);
 		if (tok[i] == NULL) { puts("bad-op"); return; }
 	}
-	if (strcmp(tok[0], "bp") != 0) { puts("bad-op"); return; }
+	if (strcmp(tok[0], "bp") != 0 && strcmp(tok[0], "bps") != 0) { puts("bad-op"); return; }
+	g_sync = strcmp(tok[0], "bps") == 0;
 	g_workers = atoi(tok[1]);
 	g_backlog = strtoul(tok[2], NULL, 10);
 	policy = atoi(tok[3]);
